@@ -10,7 +10,6 @@ sys.path.insert(0, os.path.join(V, 'rules'))
 
 NOT_APPLICABLE = {
     'C24': 'agreement of two cryptographic backends is an equality of computed curve points for all inputs; no clause of it is visible in the shape of the code (the two ecrecover bodies share no structure), so static analysis has no necessary condition to decide',
-    'C26': 'round-trip equality of EOF decode/encode and "validation implies no interpreter panic" relate two data-dependent algorithms; discharging the panic edges needs relational loop invariants beyond the analyses built here, and a panic-site inventory would alarm on behaviour-preserving edits',
 }
 
 props = [json.loads(l) for l in open(os.path.join(V, 'properties.jsonl'))]
